@@ -69,6 +69,7 @@ const (
 	srcRegular = iota
 	srcViaSymlink
 	srcMissing
+	srcDirLinkDotDot // spelled <symlink to a directory elsewhere>/../source.bin: the kernel resolves ".." after following the link
 )
 
 const (
@@ -86,13 +87,14 @@ const (
 	dstOtherFS
 	dstOtherFSExisting
 	dstOtherFSSymlinkBack
-	dstDevFull // /dev/full: can be opened for writing, every write fails with ENOSPC (a full disk)
+	dstDevFull       // /dev/full: can be opened for writing, every write fails with ENOSPC (a full disk)
+	dstDirLinkDotDot // spelled <symlink to a directory elsewhere>/../dest.bin; another dest.bin sits where a lexical clean-up of the spelling points
 	numDst
 )
 
-var srcNames = []string{"regular", "via-symlink", "missing"}
+var srcNames = []string{"regular", "via-symlink", "missing", "via-symlinked-directory-dotdot"}
 var dstNames = []string{"missing", "existing-shorter", "existing-longer", "existing-same-length", "same-path", "dot-slash-spelling", "symlink-to-source", "hardlink-to-source", "directory", "parent-missing", "parent-is-file",
-	"other-fs", "other-fs-existing", "other-fs-symlink-back-to-source", "device-where-every-write-fails"}
+	"other-fs", "other-fs-existing", "other-fs-symlink-back-to-source", "device-where-every-write-fails", "via-symlinked-directory-dotdot"}
 
 type scen struct {
 	move    bool
@@ -201,9 +203,19 @@ func run(s scen) (msg string, skipped bool) {
 		must(os.Symlink(realSrc, srcPath))
 	case srcMissing:
 		// nothing
+	case srcDirLinkDotDot:
+		// the file lives in dir/elsewhere; dir/jump -> dir/elsewhere/deep, so dir/jump/../source.bin names it. A decoy
+		// with the same name sits in dir itself, where a lexical clean-up of the spelling would look.
+		must(os.MkdirAll(filepath.Join(dir, "elsewhere", "deep"), 0o755))
+		must(os.Symlink(filepath.Join(dir, "elsewhere", "deep"), filepath.Join(dir, "jump")))
+		realSrc = filepath.Join(dir, "elsewhere", "source.bin")
+		must(os.WriteFile(realSrc, data, 0o644))
+		must(os.WriteFile(filepath.Join(dir, "source.bin"), []byte("decoy source: not the file that was named"), 0o644))
+		srcPath = dir + "/jump/../source.bin"
 	}
 	other := content(s.size, s.salt+1)
 	dstPath := filepath.Join(dir, "dest.bin")
+	bystander, bystanderData := "", []byte("bystander: a file nobody named")
 	aliasing := false
 	switch s.dst {
 	case dstMissing:
@@ -218,7 +230,7 @@ func run(s scen) (msg string, skipped bool) {
 		aliasing = true
 	case dstDotSlash:
 		dstPath = filepath.Dir(realSrc) + "/./sub/../" + filepath.Base(realSrc)
-		must(os.Mkdir(filepath.Join(dir, "sub"), 0o755))
+		must(os.Mkdir(filepath.Join(filepath.Dir(realSrc), "sub"), 0o755))
 		aliasing = true
 	case dstSymlinkToSrc:
 		dstPath = filepath.Join(dir, "dest.link")
@@ -250,6 +262,12 @@ func run(s scen) (msg string, skipped bool) {
 		aliasing = true
 	case dstDevFull:
 		dstPath = "/dev/full"
+	case dstDirLinkDotDot:
+		must(os.MkdirAll(filepath.Join(dir, "elsewhere2", "deep"), 0o755))
+		must(os.Symlink(filepath.Join(dir, "elsewhere2", "deep"), filepath.Join(dir, "jump2")))
+		bystander = filepath.Join(dir, "dest.bin")
+		must(os.WriteFile(bystander, bystanderData, 0o644))
+		dstPath = dir + "/jump2/../dest.bin" // = dir/elsewhere2/dest.bin
 	}
 	if s.src == srcMissing {
 		aliasing = false
@@ -268,6 +286,11 @@ func run(s scen) (msg string, skipped bool) {
 	}()
 	if panicked != nil {
 		return fmt.Sprintf("panicked: %v", panicked), false
+	}
+	if bystander != "" {
+		if got, err := os.ReadFile(bystander); err != nil || !bytes.Equal(got, bystanderData) {
+			return fmt.Sprintf("a file that was not named in the call (%s, where a lexical clean-up of the destination's spelling points) was changed or removed (err=%v, %d bytes now)", bystander, err, len(got)), false
+		}
 	}
 	readSrc := func() ([]byte, error) { return os.ReadFile(srcPath) }
 	if s.src == srcMissing {
@@ -340,7 +363,7 @@ func TestAllCombinations(t *testing.T) {
 	}
 	idx, n, nskip := 0, 0, 0
 	for _, move := range []bool{false, true} {
-		for src := 0; src < 3; src++ {
+		for src := 0; src < len(srcNames); src++ {
 			for dst := 0; dst < numDst; dst++ {
 				if !move && dst >= dstOtherFS && dst != dstOtherFS {
 					// CopyFile across file systems is an ordinary copy: one representative is enough
@@ -366,7 +389,7 @@ func TestAllCombinations(t *testing.T) {
 			}
 		}
 	}
-	scope := fmt.Sprintf("every combination of {CopyFile, MoveFile} x 3 source kinds x %d destination kinds x sizes %v (%d scenarios, %d skipped for lack of a second file system)", numDst, sizes, n, nskip)
+	scope := fmt.Sprintf("every combination of {CopyFile, MoveFile} x %d source kinds x %d destination kinds x sizes %v (%d scenarios, %d skipped for lack of a second file system)", len(srcNames), numDst, sizes, n, nskip)
 	if sn > 1 {
 		scope = "one shard of: " + scope
 	}
@@ -381,7 +404,7 @@ func TestGenerated(t *testing.T) {
 	rt.Check(t, 300, 150000, func(t *rapid.T) {
 		s := scen{
 			move: rapid.Bool().Draw(t, "move"),
-			src:  rapid.SampledFrom([]int{srcRegular, srcRegular, srcRegular, srcViaSymlink, srcMissing}).Draw(t, "source"),
+			src:  rapid.SampledFrom([]int{srcRegular, srcRegular, srcRegular, srcViaSymlink, srcMissing, srcDirLinkDotDot}).Draw(t, "source"),
 			dst:  rapid.IntRange(0, numDst-1).Draw(t, "destination"),
 			salt: rapid.Uint64().Draw(t, "salt"),
 		}
